@@ -65,6 +65,25 @@ CLAIMED = {
         'ABI oracle; only acyclic declarations; unknown-size members cannot be produced through g-ir-compiler (its '
         'warning is fatal), so that clause is tied by reading only; callbacks in unions excluded (finding F14).',
    ref='DESIGN.md §4 C08'),
+ 'C17': dict(
+   technique='Coq proof (invariant by induction over fuel and over operation histories) over a model of girepository.c require/election + correspondence against the real repository code on generated directory trees and histories',
+   text='Theorems (Coq, axiom-free): an explicit version loads the file of the first search-path directory that has it, '
+        'refused on a namespace or version mismatch, not-found otherwise (C17_first_directory, C17_exact); without a '
+        'version the elected candidate has no numerically higher (major, minor) competitor nor an equal one from an '
+        'earlier directory (C17_latest, C17_version_order, 1.10 > 1.9); prepended directories come first; a loaded '
+        'namespace is returned for the same version and a version conflict changes nothing (C17_already_loaded); for '
+        'every history of prepend/require/private-require calls over an acyclic set of files, every loaded namespace '
+        'comes from a file naming it and every recorded dependency is loaded at the recorded version, states only grow '
+        '(C17_invariant, C17_require_result). Tie: a C driver that #includes girepository.c of the working tree '
+        'executes generated histories in fresh processes on generated directory trees of typelibs compiled by the real '
+        'compiler (mislabelled and garbage files, missing directories, odd version spellings) and the model is evaluated '
+        'on the same histories in Coq (results, error codes, final reports); parse_version is driven directly. '
+        'load-from-memory is modelled as coded (re-registers on a version clash) and outside the invariant theorem. '
+        'One defect found and fixed.',
+   note='Trusted: Coq kernel+VM; cshim; the harness reads each file\'s header namespace/version/dependencies with the '
+        'repository\'s own accessors; readdir order = os.listdir order; g_slist_sort stable; strtol per ISO C; lazy '
+        'loading and cyclic dependency sets not modelled.',
+   ref='DESIGN.md §4 C17'),
 }
 
 PLANNED = {}
